@@ -223,3 +223,51 @@ PROPS['C15'] = {
     'explanation': 'spec/indep.rs; contracts/api.ctr (sanitize_colored_vertices and the non-dirty entry points).',
     'trusted': _EVAL_TRUSTED, 'assumptions': _EVAL_ASSUME,
 }
+
+PROPS['C08'] = {
+    'units': ['api', 'front', 'lex', 'tree', 'eval', 'ops'],
+    'functions': {'eval': [], 'ops': [], 'api': ['parse_and_validate', '_model_check_multiple_formulae_dirty', 'model_check_multiple_formulae_dirty', '_model_check_formula_dirty', 'model_check_formula_dirty',
+                          '_model_check_multiple_formulae', 'model_check_multiple_formulae', '_model_check_formula', 'model_check_formula'],
+                  'front': None, 'lex': None, 'tree': None},
+    'level_text': ('Proof, over the declarative specifications that the tokenizer, the parser and the renamer are proved to implement for every input, that each '
+                   'rewrite named in the statement leaves the PREPROCESSED TREE unchanged: whitespace before any token and inside hybrid headers '
+                   '(lemma_ws_front / lemma_ws_hdr), long versus short operator spellings (lemma_long_spellings), spellings of the constants '
+                   '(lemma_constant_spellings*), parentheses around a formula (lemma_redundant_parens: a group is parsed as its content), consistent renaming '
+                   'of state variables in any order of names (lemma_alpha_same_result: alpha-equivalent trees are renamed to the SAME tree, quantifier at depth d '
+                   'named x^d). The string entry points are proved to hand exactly the preprocessed tree to the evaluator and to return a set that agrees with '
+                   'its semantics inside the unit set, so equal trees give equal results.'),
+    'level_note': ('The rewrites are lemmas about one rewrite step at the place where it applies (front of the remaining text / a whole group); closing them under '
+                   'arbitrary contexts is by the recursive structure of lex_group / sp_* and is not a separate machine-checked theorem. That the evaluator is a '
+                   'function of the tree is C01 / C04 (its cone is not repeated here). Trusted: as C05 / C07.'),
+    'explanation': 'spec/rewrites.rs (unit api); specifications spec/lex.rs, spec/grammar.rs, spec/rename.rs implemented by units lex, tree, front.',
+    'trusted': PROPS['C05']['trusted'] + PROPS['C07']['trusted'],
+}
+PROPS['C10'] = {
+    'units': ['api', 'eval', 'ops', 'front', 'lex', 'tree'],
+    'functions': {'front': [], 'lex': None, 'tree': [], 'api': [], 'eval': ['eval_node', 'eval_hybrid_quantifier', 'restrict_stg_unit_bdd'], 'ops': None},
+    'level_text': ('Proof (lemma_replaced, induction over the tree with the twelve operator lemmas) that replacing any number of sub-formulae by wild-card propositions '
+                   'whose context sets agree with the semantics of the replaced sub-formulae inside the unit set leaves the semantics of every surrounding formula '
+                   'unchanged inside the unit set, for every graph; proof on the code that eval_node serves a wild-card terminal by the supplied set (cache invariant '
+                   'ctx_inv: wild-card entries hold their context set, counters cover the remaining occurrences) and evaluates the rest according to the semantics; '
+                   'proof that the extended tokenizer / parser produce, on a formula without wild-cards and domains, exactly the tree of the plain ones (lemma_lex_ext).'),
+    'level_note': ('The extended entry points (model_check_extended_formula*, extend_context_with_wild_cards, validate_and_divide_wild_cards) are NOT under contract: the '
+                   'invariant needs the occurrence counters of wild-cards to cover the evaluations that will really happen, which depends on the cache state (an occurrence '
+                   'below a shared sub-formula is never evaluated) -- eval_node is verified under that budget as a precondition (budget_pre). Same trusted base as C01; '
+                   'known findings D5 / D8.'),
+    'explanation': 'spec/subst.rs, spec/plain.rs (lemma_lex_ext, lemma_hdr_ext) in unit api; wild-card arm and hit path of eval_node in unit eval.',
+    'trusted': _EVAL_TRUSTED, 'assumptions': _EVAL_ASSUME,
+}
+PROPS['C20'] = {
+    'units': ['api', 'eval', 'ops', 'front', 'lex', 'tree'],
+    'functions': {'front': [], 'lex': [], 'tree': [], 'api': ['_model_check_multiple_trees_dirty', '_model_check_multiple_formulae_dirty', 'parse_and_validate', 'sanitize_colored_vertices'], 'eval': None, 'ops': None},
+    'level_text': ('Proof (lemma_colour_local / lemma_c20, induction over the tree; least and greatest fixed points by transporting closed / dense sets between the two '
+                   'systems) that the slice of the HCTL semantics at a colour c is determined by the transitions, the self-loops and the validity of colour c alone: '
+                   'any two transition systems that agree at c -- a parametrised network and its instantiation by c, or the same network with other colours added or '
+                   'removed -- have the same states for c, for every formula. Proof on the code (C01) that the model checker returns the semantics inside the unit set; '
+                   'every operator and low-level operation is specified point-wise with the colour coordinate untouched, so a code change that quantifies or substitutes '
+                   'a parameter variable fails the operator\'s own postcondition.'),
+    'level_note': ('The correspondence between the BDD encoding of the instantiated network (no parameter variables) and the points of colour c of the parametrised one '
+                   'is part of the trusted model of the graph library. Same trusted base as C01; attractor algorithm assumed; known findings D5 / D8.'),
+    'explanation': 'spec/colour.rs (semg = semantics with the transition system as a parameter; lemma_semg_base: semg(base) == sem) in unit api; units ops and eval as for C01.',
+    'trusted': _EVAL_TRUSTED, 'assumptions': _EVAL_ASSUME,
+}
